@@ -227,6 +227,12 @@ func (c *regexpSimplifyChecker) walk(e syntax.Expr) {
 			out.WriteString(e.Value)
 		}
 
+	case syntax.OpEscapeOctal:
+		// Print all 3 digits: a digit that ends up next to a shorter escape would become a part of it.
+		out.WriteString(`\`)
+		out.WriteString(strings.Repeat("0", len(`\000`)-len(e.Value)))
+		out.WriteString(e.Value[len(`\`):])
+
 	case syntax.OpQuestion, syntax.OpNonGreedy:
 		c.walk(e.Args[0])
 		out.WriteString("?")
